@@ -19,7 +19,7 @@ PolyOK(e) ==
         ELSE /\ Tally(11, TRUE) /\ Tally(12, ExactCase(c, x) /\ Len(c) > 2 /\ x # BRZero)
              /\ IsFinite(e.y)
              /\ LET y == Val(e.y)  exact == B!Eval(c, x) IN
-                /\ BRLe(BRAbs(BRSub(y, exact)), EvalBound(c, BRAbs(x)))
+                /\ LeTracked(BRAbs(BRSub(y, exact)), EvalBound(c, BRAbs(x)))
                 /\ ExactCase(c, x) => y = exact
 
 \* Log<P>: p(ln v).  L = ln v to 2^-230; the library computes s = fl(ln v), |s - L| <= 1 ulp assumed of libm.
@@ -32,8 +32,8 @@ LogOK(e) ==
     IN  IF ~TermsInScope(c, A, IF Len(c) > 1 /\ Len(c) - 1 > 8 THEN Len(c) - 1 ELSE 8) THEN TRUE
         ELSE /\ Tally(13, TRUE)
              /\ IsFinite(e.y)
-             /\ BRLe(BRAbs(BRSub(Val(e.y), B!Eval(c, L))),
-                     BRAdd(EvalBound(c, A), BRMul(BRAdd(ulpL, BRMul(BR(2), ErrAbs)), B!Eval(dc, A))))
+             /\ LeTracked(BRAbs(BRSub(Val(e.y), B!Eval(c, L))),
+                          BRAdd(EvalBound(c, A), BRMul(BRAdd(ulpL, BRMul(BR(2), ErrAbs)), B!Eval(dc, A))))
              /\ (v = BROne) => e.y = (IF Len(c) = 0 THEN PosZero ELSE e.c[1]) \/ (IsZero(e.y) /\ Val(e.c[1]) = BRZero)
 
 TraceEval ==
